@@ -61,7 +61,7 @@ def make_case(i, rng, tier):
         kind = rng.choice(("badtype", "badcommand", "nocommand"))
         inp = common.gen_input(rng, ("response", rng.choice(sorted(L.commands)), 0, False, False))
         return {"mode": "refuse", "kind": kind, "data": inp["data"].hex(), "cc": inp["cc"],
-                "typo": rng.choice(("drop", "swap", "case", "extra"))}
+                "typo": rng.choice(("drop", "swap", "case", "extra")) if rng.random() < 0.7 else "word:%d" % rng.randrange(1 << 16)}
     if r < 0.17:
         t = rng.choice([("struct", rng.choice([n for n in L.struct_names() if n not in synth.SYNTH])), ("command", rng.choice(sorted(L.commands)), 0, False),
                         ("response", rng.choice(sorted(L.commands)), 0, False, None)])
@@ -160,7 +160,30 @@ def example_names():
     return _NAMES
 
 
+_WORDS = None
+
+
+def _words():
+    """identifiers a user might type that are *not* command or type names: names that live next to the real ones in the
+    library's namespaces (helpers of the enumeration classes, methods of the integer types, names imported into the
+    structure modules) and a few plain words.  Computed from the tree under test, filtered by the pinned snapshot."""
+    global _WORDS
+    if _WORDS is None:
+        import tpmstream.spec.structures.structures as st
+        from tpmstream.spec.structures.constants import TPM_CC
+        L = layout()
+        known = set(L.cc_by_name) | set(L.types) | {"Command", "Response", "CommandResponseStream"}
+        pool = [n for n in dir(TPM_CC) if not n.startswith("_") and not isinstance(getattr(TPM_CC, n, None), TPM_CC)]
+        pool += [n for n in vars(st) if not n.startswith("_") and not n.isupper()]
+        pool += ["name", "value", "items", "keys", "None", "True", "help", "type", "command", "list", "int", "all", "any"]
+        _WORDS = sorted(set(n for n in pool if n not in known and n.isidentifier()))
+    return _WORDS
+
+
 def _typo(name, how):
+    if how.startswith("word:"):
+        w = _words()
+        return w[int(how[5:]) % len(w)]
     if how == "drop" and len(name) > 3:
         return name[:-1]
     if how == "swap" and len(name) > 3:
